@@ -34,6 +34,8 @@ pub enum Item {
     Use(String),
     /// `#if c0 {..} #elif c1 {..} .. [#else {..}]`
     If(Vec<(E, Vec<Item>)>, Option<Vec<Item>>),
+    /// `#fn name(x) => x + 1` — a declared name that is neither a constant nor a label
+    Func(String),
 }
 
 pub fn render(items: &[Item], ind: usize, out: &mut String) {
@@ -45,6 +47,7 @@ pub fn render(items: &[Item], ind: usize, out: &mut String) {
             Item::Const(n, e) => out.push_str(&format!("{}{} = {}\n", pad, n, e.print(false))),
             Item::Sub(_, n, e) => out.push_str(&format!("{}.{} = {}\n", pad, n, e.print(false))),
             Item::Use(n) => out.push_str(&format!("{}#d8 {}\n", pad, n)),
+            Item::Func(n) => out.push_str(&format!("{}#fn {}(x) => x + 1\n", pad, n)),
             Item::If(chain, els) => {
                 for (i, (c, body)) in chain.iter().enumerate() {
                     out.push_str(&format!("{}{} {}\n{}{{\n", pad, if i == 0 { "#if" } else { "#elif" }, c.print(false), pad));
@@ -179,7 +182,7 @@ fn digest(world: &[Item], known: &HashMap<String, RVal>) -> u64 {
 pub fn declared_anywhere(items: &[Item], out: &mut Vec<(String, bool)>) {
     for it in items {
         match it {
-            Item::Label(n) => out.push((n.clone(), false)),
+            Item::Label(n) | Item::Func(n) => out.push((n.clone(), false)),
             Item::Const(n, _) => out.push((n.clone(), true)),
             Item::Sub(p, n, _) => out.push((format!("{}.{}", p, n), true)),
             Item::If(chain, els) => {
